@@ -33,7 +33,7 @@ RULE = (
     "a case is a fault schedule on the real tool: (utterance count 0..5, computer config raw|fbank, --num-workers 0..3, "
     "list of invocations each with at most one injected fault (hard kill = os._exit(137) | soft = KeyboardInterrupt) at "
     "the k-th save {before, truncated-in-the-middle, after} or the k-th manifest line {written to the file object, "
-    "flushed}), always ending with an unfaulted invocation; --preprocess [\"dither\"] --seed 7.  quick: 4 fixed schedules "
+    "flushed}), always ending with an unfaulted invocation; --preprocess [\"dither\"] --seed 0 (a legal falsy seed).  quick: 4 fixed schedules "
     "+ a random sample; thorough: every (n, k, stage, kind) single fault + random 2-3 fault schedules.  Every invocation is "
     "one subprocess; after each one the directory, manifest, per-file tensor bytes, inode/mtime and the injector's event "
     "log are compared with the Lean model run on the same schedule and checked against the oracle.  Distinct by schedule; "
@@ -68,8 +68,8 @@ LEVEL_NOTE = (
 TECHNIQUE = "Lean 4 invariant induction over fault sequences of a crash/resume state machine + subprocess fault-injection correspondence"
 
 PY = "/venv/bin/python"
-SEED = 7
-IDS = ["k3", "a7", "z1", "m4", "c9", "b0"]          # deliberately not in sorted order
+SEED = 0   # a legal --seed that is falsy: `seed or random` style handling must not lose it
+IDS = ["rec12", "rec11", "rec1", "ab", "a", "b0"]   # not sorted; later ids are substrings / prefixes of earlier ones
 CFGS = {
     "raw": None,
     "fbank": {"name": "stft", "bank": {"name": "fbank", "num_filts": 5, "sampling_rate": 8000},
